@@ -65,6 +65,28 @@ def shard_main(args) -> int:
     return 0
 
 
+def cov_main(args) -> int:
+    """One coverage-guided (atheris/libFuzzer) process for one sub-check; odc.* is instrumented at import."""
+    import atheris
+
+    with atheris.instrument_imports(include=["odc"]):
+        _setup_imports()
+        mod, chk = _load(args.pid, args.tier, args.seed, args.shard, args.nshards)
+    sc = chk.subs[args.cov]
+    scratch = Path(os.environ["VF_SCRATCH"])
+    chk.run_cov(sc, args.cov_runs, args.cov_budget, Path(args.out), scratch, corpus_seeded=bool(args.shard % 2) or args.nshards == 1)
+    return 0
+
+
+def _have_atheris() -> bool:
+    try:
+        import importlib.util
+
+        return importlib.util.find_spec("atheris") is not None
+    except Exception:  # noqa: BLE001
+        return False
+
+
 def replay_main(args) -> int:
     _setup_imports()
     from vf.common import HarnessError
@@ -127,6 +149,47 @@ def parent_main(args) -> int:
             procs.append((i, out, log, subprocess.Popen(cmd, cwd=str(ROOT), env=env, stdout=log, stderr=subprocess.STDOUT)))
         results = []
         harness_errors = []
+        # ---- coverage-guided processes (sub-checks registered with cov={tier: runs}); quick: alongside the
+        # Hypothesis shards, thorough: after them (they would otherwise fight for the same 16 cores)
+        from vf.common import Check as _Check
+
+        _chk = _Check(args.pid, args.tier, args.seed, 0, 1)
+        mod.build(_chk)
+        cov_subs = [(n, sc) for n, sc in _chk.subs.items()
+                    if sc.cov.get(args.tier, 0) > 0 and (not args.only or n in args.only or n + "@cov" in args.only or "@cov" in args.only)]
+        if args.no_cov or not cov_subs:
+            cov_subs = []
+        elif not _have_atheris():
+            print("note: atheris is not installed - coverage-guided sub-checks skipped (run MANIFEST.setup_cmd)")
+            cov_subs = []
+        cov_jobs = []
+        nproc = getattr(mod, "COV_PROCS", {}).get(args.tier, 1 if args.tier == "quick" else 2)
+        for name, sc in cov_subs:
+            for j in range(nproc):
+                cov_jobs.append((name, sc, j, nproc))
+
+        def _spawn_cov(k, name, sc, j, nproc):
+            i = 1000 + k
+            out = tmp / f"shard{i}.json"
+            sdir = tmp / f"scratch{i}"
+            sdir.mkdir()
+            env = dict(os.environ)
+            env["VF_SCRATCH"] = str(sdir)
+            env["TMPDIR"] = str(sdir)
+            env.setdefault("OMP_NUM_THREADS", "1")
+            env.setdefault("OPENBLAS_NUM_THREADS", "1")
+            env.setdefault("GDAL_NUM_THREADS", "1")
+            runs = max(1, sc.cov[args.tier] // nproc)
+            cmd = [sys.executable, "-m", "vf.run", args.pid, "--tier", args.tier, "--seed", str(args.seed),
+                   "--shard", str(j), "--nshards", str(nproc), "--out", str(out), "--cov", name,
+                   "--cov-runs", str(runs), "--cov-budget", str(sc.cov_budget_s[args.tier])]
+            log = open(tmp / f"shard{i}.log", "w")
+            return (i, out, log, subprocess.Popen(cmd, cwd=str(ROOT), env=env, stdout=log, stderr=subprocess.STDOUT))
+
+        cov_procs = []
+        if args.tier == "quick":
+            cov_procs = [_spawn_cov(k, *job) for k, job in enumerate(cov_jobs)]
+            procs += cov_procs
         for i, out, log, p in procs:
             rc = p.wait()
             log.close()
@@ -135,6 +198,24 @@ def parent_main(args) -> int:
                 harness_errors.append(f"shard {i} exit {rc}: {tail}")
                 continue
             results.append(json.loads(out.read_text()))
+        if args.tier != "quick" and cov_jobs:
+            width = max(1, os.cpu_count() or 1)
+            pending = list(enumerate(cov_jobs))
+            running = []
+            while pending or running:
+                while pending and len(running) < width:
+                    k, job = pending.pop(0)
+                    pr = _spawn_cov(k, *job)
+                    procs.append(pr)
+                    running.append(pr)
+                i, out, log, p = running.pop(0)
+                rc = p.wait()
+                log.close()
+                if rc != 0 or not out.exists():
+                    tail = (tmp / f"shard{i}.log").read_text()[-3000:]
+                    harness_errors.append(f"cov shard {i} exit {rc}: {tail}")
+                    continue
+                results.append(json.loads(out.read_text()))
     finally:
         for _, _, _, p in procs:
             if p.poll() is None:
@@ -272,12 +353,18 @@ def main() -> int:
     ap.add_argument("--nshards", type=int)
     ap.add_argument("--out")
     ap.add_argument("--only", nargs="*")
+    ap.add_argument("--cov", help="(internal) run this sub-check under the coverage-guided driver")
+    ap.add_argument("--cov-runs", type=int, default=1000)
+    ap.add_argument("--cov-budget", type=float, default=60.0)
+    ap.add_argument("--no-cov", action="store_true", help="skip coverage-guided sub-checks")
     ap.add_argument("-v", "--verbose", action="store_true")
     args = ap.parse_args()
     args.pid = args.pid.upper()
     _reexec_if_needed()
     if args.replay:
         return replay_main(args)
+    if args.cov:
+        return cov_main(args)
     if args.shard is not None:
         return shard_main(args)
     return parent_main(args)
